@@ -275,6 +275,19 @@ pub fn gen_c06(out: &mut impl Write, seed: u64, thorough: bool) {
                     m.extend(r.bytes(ext));
                     writeln!(out, "{op} {} {} {} {} want=err", be.name(), k.name(), hex(&secret), hex(format!("{hdr}{}", b64(&m)).as_bytes())).unwrap();
                 }
+                // a byte removed or inserted *inside* the blob, at every field edge (a field read as "the rest" or re-padded
+                // to its width would tolerate this)
+                {
+                    let mut ed: Vec<usize> = field_edges(op, be, n).into_iter().collect(); ed.sort();
+                    for &e in &ed {
+                        if e < n {
+                            let mut m = blob.clone(); m.remove(e);
+                            if within(&m) { writeln!(out, "{op} {} {} {} {} want=err", be.name(), k.name(), hex(&secret), hex(format!("{hdr}{}", b64(&m)).as_bytes())).unwrap(); }
+                        }
+                        let mut m = blob.clone(); m.insert(e.min(n), 0);
+                        if within(&m) { writeln!(out, "{op} {} {} {} {} want=err", be.name(), k.name(), hex(&secret), hex(format!("{hdr}{}", b64(&m)).as_bytes())).unwrap(); }
+                    }
+                }
                 // other secret: one bit different, empty, random
                 let mut s2 = secret.clone();
                 s2[0] ^= 1;
@@ -342,6 +355,33 @@ pub fn gen_c06(out: &mut impl Write, seed: u64, thorough: bool) {
             let mut m = blob.clone();
             m.push(0);
             writeln!(out, "seal.open {} {} {} want=err", be.name(), hex(&psk), hex(format!("{hdr}{}", b64(&m)).as_bytes())).unwrap();
+            {
+                // a byte removed or inserted inside the blob at every field edge; also on a blob whose encapsulation (RSA
+                // ciphertext / point / u-coordinate) begins with a zero byte, where "strip and re-pad" would hide the removal
+                let mut blobs = vec![blob.clone()];
+                let enc_at = match be.version() { 1 => 80, 3 => 48 + 1, _ => 32 };      // first byte of the encapsulation (after a point tag)
+                for _ in 0..(if thorough { 4000 } else { 1500 }) {
+                    let Some(s2) = seal(be, &ppk, &key) else { break };
+                    let (_, b2) = split_paserk(&s2);
+                    if b2.get(enc_at) == Some(&0) {
+                        writeln!(out, "seal.open {} {} {} want=ok:{}", be.name(), hex(&psk), hex(s2.as_bytes()), hex(&key)).unwrap();
+                        blobs.push(b2);
+                        break;
+                    }
+                }
+                for bl in &blobs {
+                    let mut ed: Vec<usize> = field_edges("seal.open", be, bl.len()).into_iter().collect();
+                    ed.push(enc_at); ed.sort(); ed.dedup();
+                    for &e in &ed {
+                        if e < bl.len() {
+                            let mut m = bl.clone(); m.remove(e);
+                            writeln!(out, "seal.open {} {} {} want=err", be.name(), hex(&psk), hex(format!("{hdr}{}", b64(&m)).as_bytes())).unwrap();
+                        }
+                        let mut m = bl.clone(); m.insert(e.min(bl.len()), 0);
+                        writeln!(out, "seal.open {} {} {} want=err", be.name(), hex(&psk), hex(format!("{hdr}{}", b64(&m)).as_bytes())).unwrap();
+                    }
+                }
+            }
             if be != Be::V1 {
                 writeln!(out, "seal.open {} {} {} want=err", be.name(), hex(&psk2), hex(s.as_bytes())).unwrap();
             }
@@ -539,13 +579,17 @@ fn der_uint(be: &[u8]) -> Vec<u8> {
 }
 /// SubjectPublicKeyInfo for an RSA key with an (odd, random) modulus of exactly `bits` bits and e = 65537
 pub fn rsa_spki_with_bits(r: &mut Rng, bits: usize) -> Vec<u8> {
+    rsa_spki_with_bits_e(r, bits, &[1, 0, 1])
+}
+/// the same with a chosen public exponent (a public key needs no matching private key)
+pub fn rsa_spki_with_bits_e(r: &mut Rng, bits: usize, e: &[u8]) -> Vec<u8> {
     let nbytes = bits.div_ceil(8);
     let mut n = r.bytes(nbytes);
     let top = (bits - 1) % 8;
     n[0] &= ((1u16 << (top + 1)) - 1) as u8;
     n[0] |= 1 << top;
     *n.last_mut().unwrap() |= 1;
-    let key = der_tlv(0x30, &[der_uint(&n), der_uint(&[1, 0, 1])].concat());
+    let key = der_tlv(0x30, &[der_uint(&n), der_uint(e)].concat());
     let alg: [u8; 15] = [0x30, 0x0d, 0x06, 0x09, 0x2a, 0x86, 0x48, 0x86, 0xf7, 0x0d, 0x01, 0x01, 0x01, 0x05, 0x00];
     let mut bitstr = vec![0u8];
     bitstr.extend(key);
@@ -710,6 +754,12 @@ pub fn gen_c08(out: &mut impl Write, seed: u64, thorough: bool) {
                     writeln!(out, "key.dec v1 pkepublic {}", hex(&spki)).unwrap();
                     if bits == 2048 { writeln!(out, "o.key v1 public {}", hex(&spki)).unwrap(); }
                 }
+                // unusual (valid) public exponents: short, with the top bit of a byte set, longer than three bytes
+                for e in [&[3u8][..], &[17], &[1, 1], &[0xff, 0xff], &[0x80, 0, 1], &[0xff, 0xff, 0xff], &[1, 0, 0, 1], &[1, 0, 1]] {
+                    let spki = rsa_spki_with_bits_e(&mut r, 2048, e);
+                    writeln!(out, "key.dec v1 public {}", hex(&spki)).unwrap();
+                    writeln!(out, "o.key v1 public {}", hex(&spki)).unwrap();
+                }
                 let der = with_v!(be, V => key_of::<V, Secret>(&spem).map(|k| k.expose_key().as_raw_bytes().to_vec()).unwrap_or_default());
                 for cut in [1usize, 2, 10, 100] {
                     if der.len() > cut { writeln!(out, "key.dec v1 secret {}", hex(&der[..der.len() - cut])).unwrap(); }
@@ -790,6 +840,11 @@ pub fn gen_c13(out: &mut impl Write, seed: u64, thorough: bool) {
             }
         }
         if be == Be::V1 {
+            for e in [&[3u8][..], &[17], &[1, 1], &[0xff, 0xff], &[0x80, 0, 1], &[0xff, 0xff, 0xff], &[1, 0, 0, 1], &[1, 0, 1]] {
+                let spki = rsa_spki_with_bits_e(&mut r, 2048, e);
+                writeln!(out, "id v1 public {}", hex(&spki)).unwrap();
+                writeln!(out, "o.id.spec v1 public {}", hex(&spki)).unwrap();
+            }
             let f = std::fs::read_to_string("/repo/paseto-test/tests/vectors/k1.secret.json").unwrap();
             let v: serde_json::Value = serde_json::from_str(&f).unwrap();
             let spem = v["tests"][0]["key"].as_str().unwrap().as_bytes().to_vec();
